@@ -21,10 +21,10 @@ Open Scope Z_scope.
 
 (* for every schedule and any number of handler goroutines, at most N handlers hold quota,
    and the counter stays within [-1, N] (so the int64 cannot wrap) *)
-Theorem C25_semaphore_limit_partial : forall s hs, reachable (s, hs) ->
+Theorem C25_semaphore_limit : forall s hs, reachable (s, hs) ->
   holders s hs <= cap s /\ -1 <= cnt s <= cap s.
 Proof. exact handler_limit. Qed.
-Print Assumptions C25_semaphore_limit_partial.
+Print Assumptions C25_semaphore_limit.
 
 (* the counter is negative only while the acquirer is blocked with all N units held and no
    answer under way; a blocked acquirer always has the counter at -1 (the next release will
